@@ -1,5 +1,6 @@
 import Uom.Model.Conv
 import Uom.Proofs.BodyEq.Serde
+import Uom.Proofs.BodyEq.SerdeRx
 /-!
 # C13 — serialization is transparent and round-trips
 
@@ -59,5 +60,32 @@ theorem src_deserialize (N : NumTy) (env : Env N) (d : Val N) :
   BodyEq.deserialize_eq N env d
 
 end SourceTie
+
+/-! ### tie to the source, with `?` interpreted (Rx form of the two bodies, regenerated on this run) -/
+section SourceTieRx
+open Uom.Rx Uom.Gen.RxBody Uom.BodyEq.SerdeRx
+
+/-- for **every** serde data format (`serV`: what the storage type writes to a serializer; `deV`: what it reads from a
+    deserializer, or its error): the quantity writes what its stored value writes … -/
+theorem src_serialize_rx {V S D O E : Type} (serV : V → S → O) (deV : D → Except E V) (x : V) (s : S) :
+    run (envSerde serV deV) system_Serialize_for_Quantity_serialize [.host (.q x), .host (.ser s)] =
+      (.val (.host (.out (serV x s))), []) := serialize_eq serV deV x s
+
+/-- … and reads exactly what the storage type reads: `Ok` of the wrapped value iff the storage type succeeds,
+    otherwise the storage type's own error, unchanged -/
+theorem src_deserialize_rx {V S D O E : Type} (serV : V → S → O) (deV : D → Except E V) (d : D) :
+    run (envSerde serV deV) system_Deserialize_for_Quantity_deserialize [.host (.de d)] =
+      (match deV d with
+       | .ok x => .val (.ctor1 cOk (.host (.q x)))
+       | .error e => .val (.ctor1 cErr (.host (.err e))), []) := deserialize_eq serV deV d
+
+/-- round trip: whenever the format round-trips the stored value, it round-trips the quantity -/
+theorem src_roundtrip_rx {V S D O E : Type} (serV : V → S → O) (deV : D → Except E V) (feed : O → D) (x : V) (s : S)
+    (hrt : deV (feed (serV x s)) = .ok x) :
+    run (envSerde serV deV) system_Deserialize_for_Quantity_deserialize [.host (.de (feed (serV x s)))] =
+      (.val (.ctor1 cOk (.host (.q x))), []) := by
+  rw [deserialize_eq, hrt]
+
+end SourceTieRx
 
 end Uom.C13
